@@ -108,7 +108,15 @@ def run(ctx):
                     if si == 1 and not evs:
                         ks = 13                  # corpus: the listed finding keysym-cr
                     down = r.random() < .5
-                    msg = struct.pack("!BBxxI", 4, down, ks)
+                    how = r.random()
+                    if how < .15:
+                        # the same key sent as a QEMU Extended Key Event (16-bit down flag, keysym, keycode)
+                        msg = struct.pack("!BBHII", 255, 0, 1 if down else 0, ks, r.randrange(256))
+                        ctx.count("key_as_qemu_extended")
+                    elif how < .25 and down:
+                        msg = struct.pack("!BBxxI", 4, r.choice([2, 128, 255]), ks)      # RFC: any non-zero value means pressed
+                    else:
+                        msg = struct.pack("!BBxxI", 4, down, ks)
                     evs.append(("key", ks, down, t))
                 else:
                     x, y, m = r.choice([0, 5, 640, 65535]), r.choice([0, 7, 480, 65535]), r.choice([0, 0, 0, 1, 4, 5])
